@@ -53,6 +53,8 @@ class ContractDef:
         self.patches = opts.pop('patches', ())
         self.no_crosscheck = opts.pop('no_crosscheck', False)
         self.rng_calls = opts.pop('rng_calls', None)
+        # values for which `x == literal` tests on symbolic x are assumed false (excluded inputs, listed in the evidence)
+        self.skip_eq_literals = tuple(Fraction(v) for v in opts.pop('skip_eq_literals', ()))
         self.tier = opts.pop('tier', 'quick')      # 'thorough': only run by the thorough tier
         self.doc = (fn.__doc__ or '').strip()
         if opts:
@@ -494,6 +496,7 @@ def explore(cdef, max_paths=None, feas_timeout_ms=800):
         prefix = work.pop()
         path = Path(prefix, feas_timeout_ms=feas_timeout_ms)
         path.rng_limit = cdef.rng_calls
+        path.skip_eq_literals = cdef.skip_eq_literals
         ctx = Ctx('sym', path=path, cdef=cdef)
         sym._CUR[0] = path
         status, exc, tb = 'ok', None, None
@@ -626,16 +629,17 @@ class Hyps:
     conclusion relates do.  Dropping hypotheses can only make a VC harder to prove, never unsound;
     a `sat` obtained on the reduced set is re-checked on the full set before it is reported."""
 
-    def __init__(self, path, lemmas, pc=()):
+    def __init__(self, path, lemmas, pc=(), facts=()):
         self.path = path
         self.lemmas = lemmas
         self.pc = list(pc)
+        self.facts = list(facts)     # clauses already discharged on this path (cut rule)
 
-    def with_pc(self, pc):
-        return Hyps(self.path, self.lemmas, pc)
+    def with_pc(self, pc, facts=()):
+        return Hyps(self.path, self.lemmas, pc, facts)
 
     def full(self):
-        return list(self.path.ax) + [f for _, f in self.lemmas] + self.pc
+        return list(self.path.ax) + [f for _, f in self.lemmas] + self.pc + self.facts
 
     def relevant(self, goal):
         S = set(sym.const_names(goal))
@@ -644,10 +648,23 @@ class Hyps:
         ax = list(zip(self.path.ax_tags, self.path.ax))
         used_ax = [False] * len(ax)
         used_lem = [False] * len(self.lemmas)
+        fact_names = [sym.const_names(f) for f in self.facts]
+        used_fact = [False] * len(self.facts)
         out = []
         changed = True
         while changed:
             changed = False
+            for i, f in enumerate(self.facts):
+                if used_fact[i]:
+                    continue
+                fresh = frozenset(n for n in fact_names[i] if '!' in n)
+                if (fresh and (fresh & S)) or (not fresh and fact_names[i] <= S):
+                    used_fact[i] = True
+                    out.append(f)
+                    new = fact_names[i] - S
+                    if new:
+                        S |= new
+                        changed = True
             for i, (tag, f) in enumerate(ax):
                 if used_ax[i]:
                     continue
@@ -837,6 +854,9 @@ def verify_contract(cdef, tier='quick', seed=0):
         out['wall_s'] = time.time() - t_start
         return out
     out['paths'] = len(runs)
+    if cdef.skip_eq_literals:
+        out['excluded_inputs'] = ("inputs for which a compared quantity equals exactly %s are excluded "
+                                  "(outcome-irrelevant comparison, see the contract's doc)" % (list(map(float, cdef.skip_eq_literals)),))
     if truncated:
         out['undecided'].append("path budget (%d) exhausted" % cdef.max_paths)
     obls = out['obligations']
@@ -867,6 +887,7 @@ def verify_contract(cdef, tier='quick', seed=0):
             continue
         n_ok_paths += 1
         records = list(run.ctx.obls)
+        facts = []          # clauses already discharged on this path: usable as hypotheses of later VCs (cut rule)
         if run.status == 'exception':
             records.append({'name': 'no-unexpected-exception', 'kind': 'ensures', 'pc': list(path.pc),
                             'cond': z3.BoolVal(False), 'exc': run.exc, 'tb': run.tb})
@@ -887,7 +908,7 @@ def verify_contract(cdef, tier='quick', seed=0):
                     o['detail'] = 'a clause that must be refutable was proved on every path: vacuous precondition or unsound encoding'
                 if o['status'] == 'canary-ok' or z3.is_true(cond):
                     continue
-                res, model, backend, secs = canary_solve(hyp_ax.with_pc(rec['pc']), cond)
+                res, model, backend, secs = canary_solve(hyp_ax.with_pc(rec['pc'], facts), cond)
                 o['solver_s'] += secs
                 out['solver_s'] += secs
                 o['backends'][backend] = o['backends'].get(backend, 0) + 1
@@ -898,7 +919,7 @@ def verify_contract(cdef, tier='quick', seed=0):
             if z3.is_true(cond):
                 o['backends']['simplifier'] = o['backends'].get('simplifier', 0) + 1
                 continue
-            res, model, backend, secs = solve_split(hyp_ax.with_pc(rec['pc']), cond, timeout_ms)
+            res, model, backend, secs = solve_split(hyp_ax.with_pc(rec['pc'], facts), cond, timeout_ms)
             if os.environ.get('PYVC_TRACE'):
                 print("   [vc] %-40s %-8s %-9s %.2fs" % (rec['name'], res, backend, secs), flush=True)
             o['solver_s'] += secs
@@ -912,6 +933,7 @@ def verify_contract(cdef, tier='quick', seed=0):
                 except Exception:
                     pass
             if res == 'unsat':
+                facts.append(cond)
                 continue
             if res == 'unknown':
                 if o['status'] == 'discharged':
